@@ -460,6 +460,13 @@ fn primitive_spaces(thorough: bool) -> Vec<(Spec, Vec<V>)> {
     }
     v.push((Spec::So2 { bounds: None, frac: None }, so2_lattice(thorough)));
     v.push((Spec::So3 { bounds: None, frac: None }, so3_lattice(thorough)));
+    // bounded variants: distance and interpolation are the manifold's, whatever the bounds say
+    for b in [(-3.0, 3.0), (-2.0, 2.0), (0.5, PI), (-PI, PI)] {
+        v.push((Spec::So2 { bounds: Some(b), frac: None }, so2_lattice(thorough)));
+    }
+    v.push((Spec::So3 { bounds: Some(([0.0, 0.0, 0.0, 1.0], 1.0)), frac: None }, so3_lattice(thorough)));
+    v.push((Spec::So3 { bounds: Some((crate::catalog::quat_axis_angle([1.0, 0.0, 0.0], 90.0), 2.0)), frac: None }, so3_lattice(thorough)));
+    v.push((Spec::Rv { dim: 2, bounds: Some(vec![(-1.0, 1.0), (0.0, 0.5)]), frac: None }, rv_lattice(2)));
     v
 }
 
